@@ -378,3 +378,90 @@ func b2i(b bool) int {
 	}
 	return 0
 }
+
+// orphanReplayRace: a vertex V1 carrying transaction T arrives before its parent and is parked. The parent arrives. While
+// the orphan buffer replays V1 (its look-ups pass, its signatures are being verified - slowly, it is a second
+// verification of a marked digest), another node's vertex V2 carrying the same T is admitted. V1 then reaches the
+// locked section and is refused there. T must stay indexed to V2, and T must not be sealed a second time afterwards.
+func orphanReplayRace(w *core.WorkerCtx, report []string) {
+	rng := core.Rand(w.Seed, "replayrace", w.Batch)
+	desc := fmt.Sprintf("orphan replay racing with another vertex of the same transaction seed=%d batch=%d", w.Seed, w.Batch)
+	w.Mark("%s", desc)
+	world := ledger.NewWorld(rng, w.R, report, allSnapOracles, desc)
+	world.SlowRepeat = 4 * time.Millisecond
+	defer world.Close()
+	if _, err := ledger.Setup(world, ledger.Profile{Nodes: 1, Users: 4, SupplyClass: 0, Delivery: "lockstep"}); err != nil {
+		w.R.Inconc("setup failed: " + err.Error())
+		return
+	}
+	n := world.Nodes[0]
+	u := world.Users
+	for i := 1; i < len(u); i++ {
+		t := world.NewTrx(u[0], u[i].Addr, spice.Melange{Currency: 100}, nil)
+		world.Propose(n, &t, "fund")
+	}
+	rounds := w.Pick(20, 100)
+	lost := 0
+	for m := 0; m < rounds; m++ {
+		snap := n.Prev
+		var tip ledger.H
+		var wgt uint64
+		for h := range snap.Leaves {
+			if v, ok := snap.Vertex(h); ok && v.Weight >= wgt {
+				tip, wgt = h, v.Weight
+			}
+		}
+		if wgt == 0 {
+			break
+		}
+		pt := world.NewTrx(u[0], u[1+m%3].Addr, spice.Melange{}, []byte(fmt.Sprintf("parent %d", m)))
+		p := ledger.ForgeVertex(world.Sealers[0], pt, tip, tip, wgt+1, world.Now())
+		var data []byte
+		amt := spice.Melange{SupplementaryCurrency: uint64(1 + rng.Intn(50))}
+		if m%2 == 0 {
+			data, amt = []byte(fmt.Sprintf("contract %d", m)), spice.Melange{}
+		}
+		tt := world.NewTrx(u[1+m%3], u[1+(m+1)%3].Addr, amt, data)
+		v1 := ledger.ForgeVertex(world.Sealers[1], tt, p.Hash, p.Hash, wgt+2, world.Now())
+		v2 := ledger.ForgeVertex(world.Sealers[0], tt, p.Hash, p.Hash, wgt+2, world.Now())
+		world.SlowAfterFirst(v1.Hash)
+		if err := world.Deliver(n, &v1, "V1 before its parent"); !ledger.IsParked(err) {
+			world.Logf("round %d: V1 was not parked: %v", m, err)
+			continue
+		}
+		if err := world.Deliver(n, &p, "the parent"); err != nil {
+			world.Logf("round %d: the parent was refused: %v", m, err)
+			continue
+		}
+		world.Hist.Add(&v2)
+		var rerr, v2err error
+		var replayed bool
+		world.Concurrent(n, []func(){
+			func() { replayed, rerr = n.Book.VerifRetryOne(world.Ctx) },
+			func() {
+				time.Sleep(time.Duration(300+rng.Intn(1500)) * time.Microsecond)
+				v2err = n.Book.AddLeaf(world.Ctx, ledger.CloneVertex(&v2))
+			},
+		})
+		world.Logf("  round %d: replay of V1 (taken from the buffer: %v) => %v; V2 => %v", m, replayed, rerr, v2err)
+		if replayed && rerr != nil && v2err == nil {
+			lost++ // V1 lost the race for its transaction
+		}
+		for i := 0; i < 3; i++ {
+			world.Retry(n)
+		}
+		// the transaction again, by proposal: it is sealed already
+		t2 := tt
+		if _, err := world.Propose(n, &t2, "the same transaction proposed afterwards"); err == nil {
+			world.Logf("  round %d: the transaction was accepted again by proposal", m)
+		}
+		mt := world.NewTrx(u[0], u[1].Addr, spice.Melange{}, []byte("merge"))
+		world.Propose(n, &mt, "merge")
+		for _, pr := range report {
+			world.EvalFor(pr, 1)
+			world.NontrivFor(pr, fmt.Sprintf("replay-race/replayed=%v/v1-refused=%v/v2-admitted=%v", replayed, rerr != nil, v2err == nil))
+		}
+	}
+	w.R.Count("replay_race_rounds", rounds)
+	w.R.Count("replay_race_rounds_in_which_the_replayed_orphan_lost", lost)
+}
